@@ -908,14 +908,21 @@ ComponentPtr flattenComponent(const ComponentEntityPtr &parent, ComponentPtr &co
 
         // Make a map of component name to component pointer.
         ComponentNameMap newComponentNames = createComponentNamesMap(importedComponentCopy);
+        // A new name must not be in use in the model, be the name of another
+        // component that comes with this import, or have been given out already.
+        NameList takenNames = compNames;
+        for (const auto &entry : newComponentNames) {
+            takenNames.push_back(entry.first);
+        }
         for (const auto &entry : newComponentNames) {
             std::string originalName = entry.first;
-            size_t count = 0;
-            std::string newName = originalName;
-            while (std::find(compNames.begin(), compNames.end(), newName) != compNames.end()) {
-                newName = originalName + "_" + convertToString(++count);
-            }
-            if (originalName != newName) {
+            if (std::find(compNames.begin(), compNames.end(), originalName) != compNames.end()) {
+                size_t count = 0;
+                std::string newName = originalName;
+                while (std::find(takenNames.begin(), takenNames.end(), newName) != takenNames.end()) {
+                    newName = originalName + "_" + convertToString(++count);
+                }
+                takenNames.push_back(newName);
                 entry.second->setName(newName);
             }
         }
